@@ -17,8 +17,10 @@ def random_scripts(rnd, n):
                 steps.append((rnd.choice(['kill', 'kill!']), rnd.randint(1, n)))
             elif r < 0.85:
                 steps.append((rnd.choice(['start', 'start!']), rnd.randint(1, n)))
-            else:
+            elif r < 0.95:
                 steps.append(('state', rnd.randint(1, n)))
+            else:
+                steps.append(('raise', 0))
         S[g] = tuple(steps)
     return G, S
 
